@@ -349,6 +349,44 @@ def constitution_by_id(c, ids):
     return {"atoms": atoms, "bonds": bonds, "charge": c["charge"], "mult": c["mult"], "ap": sorted(ids[i] for i in c["ap"])}
 
 
+def variant_charge_split(d: Drawing, out: Path, q: int, o: int, radical: bool = False):
+    """derived drawings for contracted labels: in every top-level fragment that holds nested fragments the first atom
+    inside each nested fragment gets `q` added to its formal charge and the first plain skeleton atom gets `o` added
+    (q = -o: a zwitterion split across the contracted-label boundary, total unchanged — 0 for most bundled
+    drawings); `radical`: the nested atom also becomes a doublet radical.  Returns None when nothing is nested."""
+    t = copy.deepcopy(d.tree)
+    touched = 0
+
+    def bump(n, dq):
+        v = int(n.get("Charge", 0)) + dq
+        if v:
+            n.set("Charge", str(v))
+        elif "Charge" in n.attrib:
+            del n.attrib["Charge"]
+
+    def plain(n):
+        return n.get("NodeType") is None and n.find("fragment") is None
+
+    for page in t.getroot().findall("page"):
+        tops = [c for c in page if c.tag == "fragment"] + [c for g in page.findall("group") for c in g if c.tag == "fragment"]
+        for fr in tops:
+            holders = [n for n in fr.findall("n") if n.find("fragment") is not None]
+            skeleton = [n for n in fr.findall("n") if plain(n)]
+            if not holders or not skeleton:
+                continue
+            for h in holders:
+                inner = [n for n in h.find("fragment").findall("n") if plain(n)]
+                if inner:
+                    bump(inner[0], q)
+                    if radical and inner[0].get("Radical") is None:
+                        inner[0].set("Radical", "Doublet")
+                    bump(skeleton[0], o)
+                    touched += 1
+    if not touched:
+        return None
+    return write_tree(t, out)
+
+
 def variant_permute(d: Drawing, out: Path, rng) -> Path:
     """shuffle the children of every page and of every group holding several fragments/labels"""
     t = copy.deepcopy(d.tree)
